@@ -129,6 +129,13 @@ def verify_function(qualname, options=None, timeout_ms=10000, repo_root=None):
         res["seconds"] = round(time.time() - t0, 3)
         return res
     ctx = Ctx(repo, reg, options=opts)
+    if opts.get("abstract") and opts.get("py_int_injective"):
+        # python ints as abstract objects: distinct integers are distinct objects (py:int is injective) - a quantified axiom, only
+        # for contracts that ask for it (it slows every goal down)
+        from .objmodels import F_INT2U
+        a_ = z3.Int("a!inj")
+        U2I = z3.Function("py:int_inv", F_INT2U.range(), z3.IntSort())
+        ctx.global_axioms.append(z3.ForAll([a_], U2I(F_INT2U(a_)) == a_, patterns=[F_INT2U(a_)]))
     ex = Exec(ctx)
     try:
         ex.verify_function(info, c, _make_inputs_factory(c, info, ctx))
